@@ -227,8 +227,11 @@ def run_impl(ctx):
         ctx.traces_validated += execs
     mcs = [(2, [[A, RL], [A, R, A]]), (1, [[A, RL, A], [A]]), (1, [[A, RL, A], [O]])]
     if not q:
-        mcs += [(2, [[A, A], [A, R]]), (2, [[A, A, RL], [A, RL]]), (2, [[A, RL], [A, RL], [A]]), (1, [[A, R], [A, RL], [A]]),
-                (1, [[A, RL], [O], [O]]), (2, [[A, RL], [A, R], [O]]), (2, [[A, RL, A], [O, O]])]
+        # measured (6 workers, loaded machine): 9 s, 59 s (0.5 M states), 118 s (0.8 M), 206 s (1.2 M), 47 s.  Dropped because
+        # they do not finish within 5-10 minutes: (2, [[A, RL], [A, RL], [A]]) and its capacity-1 variant (three threads, two
+        # racing lock() loops), (2, [[A, RL], [A, R], [O]])
+        mcs += [(2, [[A, A], [A, R]]), (2, [[A, A, RL], [A, RL]]), (1, [[A, R], [A, RL], [A]]),
+                (1, [[A, RL], [O], [O]]), (2, [[A, RL, A], [O, O]])]
     for n, (cap, prog) in enumerate(mcs):
         name = f"RU_{n}"
         d = gen_module(ctx, name, "RuisImpl", cap, prog, tab, False)
